@@ -400,9 +400,10 @@ class Gen:
             # still predict like the original
             mfam = self.models[m0]["fam"]
             if FIT_COST.get((mfam, self.models[m0]["profile"]), FIT_COST.get(mfam, 1)) <= 2.5 or mfam == "caltrack":
-                ob = self._like_base(mfam, self.models[m0]["profile"], base0)
+                prof_o = self.models[m0]["profile"] if r.random() < 0.5 else P.sibling(mfam, self.models[m0]["profile"])
+                ob = self._like_base(mfam, prof_o, base0)
                 dbo = self.make_data(ob)
-                self.fit(mfam, dbo, profile=self.models[m0]["profile"], ignore=True, allow_abort=False)
+                self.fit(mfam, dbo, profile=prof_o, ignore=True, allow_abort=False)
                 mlo = self.load(doc)
                 self.predict(mlo, ds[0], ignore=True)
                 self.predict(m0, ds[0], ignore=True)
@@ -455,7 +456,8 @@ class Gen:
             if FIT_COST.get((mfam, self.models[m0]["profile"]), FIT_COST.get(mfam, 1)) <= 2.5 or mfam == "caltrack":
                 # a second model of the family (another meter, look-alike zone where there is one) is fitted and used
                 # while the first lives on
-                ob = self._like_base(mfam, self.models[m0]["profile"], base0)
+                prof_o = self.models[m0]["profile"] if r.random() < 0.5 else P.sibling(mfam, self.models[m0]["profile"])
+                ob = self._like_base(mfam, prof_o, base0)
                 if ob.get("src") != "sample" and base0.get("tz") in C.CONTRAST and r.random() < 0.75:
                     ob["tz"] = r.choice(C.CONTRAST[base0["tz"]])   # same standard offset, other daylight-saving behaviour
                     if r.random() < 0.6:
@@ -464,7 +466,7 @@ class Gen:
                 elif ob.get("src") != "sample" and base0.get("tz") in C.LOOKALIKE and r.random() < 0.5:
                     ob["tz"] = r.choice(C.LOOKALIKE[base0["tz"]])
                 dbo = self.make_data(ob)
-                mo = self.fit(mfam, dbo, profile=self.models[m0]["profile"], ignore=True, allow_abort=False)
+                mo = self.fit(mfam, dbo, profile=prof_o, ignore=True, allow_abort=False)
                 self.predict(mo, dbo, ignore=True)
                 self.predict(m0, ds[0], ignore=True)
                 if ob.get("src") != "sample" and base0.get("src") != "sample" and mfam != "caltrack":
@@ -530,6 +532,14 @@ class Gen:
                 d = self.make_data(base0)
                 m1 = self.fit(m["fam"], d, profile=m["profile"], ignore=True)
                 self.predict(m1, ds[0], ignore=True)
+                bs = self._data_for(m0, "baseline")
+                if bs and FIT_COST.get((m["fam"], m["profile"]), FIT_COST.get(m["fam"], 1)) <= 2.5:
+                    # the baseline object m0 was fitted on serves a model of a sibling profile (other season and weekday
+                    # maps / other scaler), then a fresh model of the key's own profile: same key as m0, same document
+                    sib = P.sibling(m["fam"], m["profile"])
+                    if not P.needs_ghi(m["fam"], sib) or base0.get("ghi"):
+                        self.fit(m["fam"], bs[0], profile=sib, ignore=True, allow_abort=False)
+                    self.fit(m["fam"], bs[0], profile=m["profile"], ignore=True, allow_abort=False)
                 if FIT_COST.get((m["fam"], m["profile"]), FIT_COST.get(m["fam"], 1)) <= 2.5:
                     # the same key once more, by an object whose previous fit (another meter) was interrupted
                     mx = self._fit_after_failed(m["fam"], m["profile"], self._other_base(m["fam"], m["profile"], base0), base0)
